@@ -458,7 +458,67 @@ def inline_single_callers(modules: dict, max_sites: int = 1, max_body: int = 12,
         out.extend(got)
         if not got:
             break
+    import os
+    if os.environ.get("VERIF_N5_NESTED", "1") == "1":
+        out.extend(_inline_nested(modules, max_sites, max_body, known))
     return out
+
+
+def _inline_nested(modules: dict, max_sites: int, max_body: int, known) -> list:
+    """N5 for NESTED helpers: a function defined directly in the body of another function, whose name the rule vocabulary
+    does not mention, that is not decorated, not a generator, declares no nonlocal/global, is not recursive, and is only
+    ever CALLED (never passed around) - from its enclosing function's own scope, at most `max_sites` times - is spliced
+    into those call sites like a module-level helper (its free variables are the enclosing function's own), and its
+    definition is dropped."""
+    done = []
+    FN = (ast.FunctionDef, ast.AsyncFunctionDef)
+    for m in modules.values():
+        changed = True
+        rounds = 0
+        while changed and rounds < 8:
+            changed = False
+            rounds += 1
+            for n in ast.walk(m.tree):
+                for c in ast.iter_child_nodes(n):
+                    c._np = n
+            for F in [n for n in ast.walk(m.tree) if isinstance(n, FN)]:
+                for h in [st for st in F.body if isinstance(st, ast.FunctionDef)]:
+                    name = h.name
+                    if name in known or h.decorator_list or name.startswith("__"):
+                        continue
+                    if any(isinstance(x, (ast.Yield, ast.YieldFrom, ast.Await, ast.Global, ast.Nonlocal)) for x in ast.walk(h)):
+                        continue
+                    if len(h.body) > max_body:
+                        continue
+                    refs = [x for x in ast.walk(F) if isinstance(x, ast.Name) and x.id == name]
+                    inside_h = {id(x) for x in ast.walk(h)}
+                    if any(id(x) in inside_h for x in refs):
+                        continue            # recursive
+                    own = {id(x) for x in _walk_own(F)}
+                    sites = []
+                    ok = bool(refs)
+                    for x in refs:
+                        par = getattr(x, "_np", None)
+                        if not (isinstance(x.ctx, ast.Load) and isinstance(par, ast.Call) and par.func is x and id(par) in own):
+                            ok = False
+                            break
+                        sites.append(par)
+                    if not ok or not (1 <= len(sites) <= max_sites):
+                        continue
+                    # a name bound in F with the same spelling as the helper (re-definition) disqualifies
+                    if sum(1 for st in ast.walk(F) if isinstance(st, FN) and st.name == name) != 1:
+                        continue
+                    if not all(_inline_one(name, m, None, h, m, call, dry=True) for call in sites):
+                        continue
+                    res = [_inline_one(name, m, None, h, m, call, dry=False) for call in sites]
+                    if all(res):
+                        F.body[:] = [st for st in F.body if st is not h] or [ast.Pass(lineno=getattr(h, "lineno", 1))]
+                    done.extend(r for r in res if r)
+                    changed = True
+                    break
+                if changed:
+                    break
+    return done
 
 
 def _inline_one(name, hm, hcls, h, cm, call, dry):
